@@ -150,7 +150,7 @@ pub fn generate(out: &mut Out, tier: &str, seed: u64) {
     alignment_family(out, &ctx);
     withtext_family(out, &ctx);
     let mut rng = Rng::new(seed);
-    let n = if thorough { 60000 } else { 3000 };
+    let n = if thorough { 400000 } else { 3000 };
     for i in 0..n {
         let cfg = GenCfg { max_ops: if i % 4 == 0 { 40 } else { 14 }, removals: if i % 3 == 0 { 0 } else { 4 }, invalid: 12, values: false };
         let mut ops = gen_history(&mut rng, &cfg);
